@@ -322,6 +322,26 @@ theorem lock_hold_bounded (h : Reach c n s) (u : Tid) (hl : s.lock = some u) :
   obtain ⟨s', hs'⟩ := Option.isSome_iff_exists.mp he
   exact ⟨lockFuel_le _, s', hs', holder_progress hi.lk hl (step_trans hs')⟩
 
+/-- `readers_nonblocking` (4), *which steps happen inside the critical section*: the deferred `_setup_version()` (version
+id, the copy of the whole node map, the public `writable_version_factory` hook) and the transaction body run **without**
+the lock: a thread at one of these program points does not hold `_version_lock`, nobody holds it on its behalf, and every
+program point at which the lock *is* held is one of the bounded bookkeeping points counted by `lockFuel`
+(`lock_hold_bounded`): no callback, copy or wait among them.  So while an admitted writer builds its version, readers
+can open and close and further writers can enqueue as soon as the lock is free of a bookkeeping holder. -/
+theorem setup_outside_lock (h : Reach c n s) (t : Tid)
+    (ht : (s.loc t).pc = .wSetupId ∨ (s.loc t).pc = .wSetupCopy ∨ (s.loc t).pc = .wReturn ∨ (s.loc t).pc = .wBody) :
+    s.lock ≠ some t ∧ s.writeTxn = some t ∧
+    (∀ u, s.lock = some u → 0 < lockFuel (s.loc u).pc ∧ (s.loc u).pc ≠ .wSetupId ∧ (s.loc u).pc ≠ .wSetupCopy ∧
+      (s.loc u).pc ≠ .wBody) ∧
+    (s.lock = none → ∀ r, c.role r = .reader → (s.loc r).pc ≠ .done → (step c s r).isSome) := by
+  have hi := reach_inv h
+  have hnl : holdsLock (s.loc t).pc = false := by rcases ht with h1 | h1 | h1 | h1 <;> rw [h1] <;> rfl
+  have hown : isOwner (s.loc t).pc = true := by rcases ht with h1 | h1 | h1 | h1 <;> rw [h1] <;> rfl
+  refine ⟨fun hl => ?_, (hi.lk.own t).mp hown, fun u hu => ?_, fun hl r hr hd => readers_nonblocking h r hr hd hl⟩
+  · have := (hi.lk.lock t).mpr hl; rw [hnl] at this; cases this
+  · have hh := (hi.lk.lock u).mpr hu
+    refine ⟨(lockFuel_pos_iff _).mpr hh, ?_, ?_, ?_⟩ <;> (intro e; rw [e] at hh; cases hh)
+
 /-- `readers_nonblocking` (3): the steps of other threads neither move the lock holder nor take the lock from it. -/
 theorem lock_hold_stable (h : Reach c n s) (u t : Tid) (hl : s.lock = some u) (hne : t ≠ u)
     (hs : step c s t = some s') : s'.lock = some u ∧ s'.loc u = s.loc u :=
